@@ -273,6 +273,13 @@ func c09Run(c *core.Ctx) {
 	}
 	c.Set("evaluations", evals.Load())
 	c.Set("distinct_nontrivial", distinct.Load())
+	c09Judge := func(s, d int, in, out uint64) (string, string) {
+		ts := dyn.Types[s]
+		return c09Point(ts.Bits, d == dyn.Float32, rawToAmp(ts.Kind, ts.Bits, in), math.Float64frombits(out))
+	}
+	digests := ctxRun(c, "C09", c09Judge, false, func(s, d int) bool { return dyn.Types[s].Kind != dyn.Float && dyn.Types[d].Kind == dyn.Float })
+	c.Set("ctx_digests", digests)
+	c.Set("evaluations", evals.Load()+c.CtxEvals())
 	c.ReverseOrderPass("mc-shim")
 	c.Set("instantiations", inst)
 	c.Set("instantiations_with_exhaustive_source_domain", exh)
@@ -284,8 +291,16 @@ func c09Run(c *core.Ctx) {
 func init() {
 	core.Register(&core.Prop{
 		ID: "C09", Level: "exploration", Design: "§5 C09",
-		Run:     c09Run,
-		Worker:  core.SweepWorker,
-		RunCase: func(c *core.Ctx, raw json.RawMessage) []F { return c09EvalCase(decode[c09Case](raw)) },
+		Run:    c09Run,
+		Worker: core.SweepWorker,
+		RunCase: func(c *core.Ctx, raw json.RawMessage) []F {
+			if isCtxCase(raw) {
+				return ctxReplay(c, raw, func(s, d int, in, out uint64) (string, string) {
+					ts := dyn.Types[s]
+					return c09Point(ts.Bits, d == dyn.Float32, rawToAmp(ts.Kind, ts.Bits, in), math.Float64frombits(out))
+				}, false)
+			}
+			return c09EvalCase(decode[c09Case](raw))
+		},
 	})
 }
